@@ -10,7 +10,7 @@ use bump_scope::{
     stats::{AnyStats, Stats},
     traits::{
         BumpAllocatorCore, BumpAllocatorCoreScope, BumpAllocatorScope, BumpAllocatorTyped,
-        BumpAllocatorTypedScope,
+        BumpAllocatorTypedScope, MutBumpAllocatorCoreScope,
     },
     BaseAllocator,
 };
@@ -67,9 +67,13 @@ pub enum Handle {
     Dyn,
     /// `&dyn BumpAllocatorCore`
     DynCore,
+    /// `&mut T` used as an allocator (the `impl … for &mut B` forwarding impls), T = `dyn MutBumpAllocatorCoreScope`
+    RefMut,
+    /// `dyn MutBumpAllocatorCoreScope` itself
+    DynMut,
 }
 
-pub const ALL_HANDLES: [Handle; 9] = [
+pub const ALL_HANDLES: [Handle; 11] = [
     Handle::Direct,
     Handle::Ref,
     Handle::RefRef,
@@ -79,6 +83,8 @@ pub const ALL_HANDLES: [Handle; 9] = [
     Handle::WoDeallocWoShrink,
     Handle::Dyn,
     Handle::DynCore,
+    Handle::RefMut,
+    Handle::DynMut,
 ];
 
 impl Handle {
@@ -93,6 +99,8 @@ impl Handle {
             Handle::WoDeallocWoShrink => "wod_wos",
             Handle::Dyn => "dyn",
             Handle::DynCore => "dyncore",
+            Handle::RefMut => "refmut",
+            Handle::DynMut => "dynmut",
         }
     }
     pub fn parse(s: &str) -> Option<Handle> {
@@ -105,7 +113,7 @@ impl Handle {
         matches!(self, Handle::WoShrink | Handle::WoShrinkWoDealloc | Handle::WoDeallocWoShrink)
     }
     pub fn is_dyn(self) -> bool {
-        matches!(self, Handle::Dyn | Handle::DynCore)
+        matches!(self, Handle::Dyn | Handle::DynCore | Handle::DynMut)
     }
 }
 
@@ -286,6 +294,7 @@ pub type Body<'x> = &'x mut dyn FnMut(&mut dyn DynArena, Option<&dyn DynArena>);
 
 pub type ScopeDynFn<'f> = &'f mut dyn for<'x, 'y> FnMut(&'y (dyn BumpAllocatorCoreScope<'x> + 'y));
 pub type CoreDynFn<'f> = &'f mut dyn for<'y> FnMut(&'y (dyn BumpAllocatorCore + 'y));
+pub type ScopeDynMutFn<'f> = &'f mut dyn for<'x, 'y> FnMut(&'y mut (dyn MutBumpAllocatorCoreScope<'x> + 'y));
 
 /// The `s_*` methods are the *static* (`Handle::Direct`) entry points and are monomorphised per configuration;
 /// every other handle kind is built in non-generic code on top of the trait objects handed out by
@@ -296,6 +305,7 @@ pub trait DynArena {
 
     fn d_with_scope_dyn(&self, f: ScopeDynFn<'_>);
     fn d_with_core_dyn(&self, f: CoreDynFn<'_>);
+    fn d_with_scope_dyn_mut(&mut self, f: ScopeDynMutFn<'_>);
 
     fn s_allocate(&self, layout: Layout, zeroed: bool) -> Result<NonNull<[u8]>, AllocError>;
     /// # Safety: allocator contract
@@ -334,6 +344,9 @@ pub trait DynArena {
 
     /// `alloc_try_with(_mut)`; for the shared form the closure may allocate `inner_alloc` through the same arena.
     fn d_alloc_try_with(&mut self, mutable: bool, ok: bool, inner_alloc: Option<Layout>, try_: bool) -> Result<Blk, ()>;
+
+    /// C15: drives an exclusive-borrow collection / `*_mut` helper and records positions at every phase
+    fn d_mut_coll(&mut self, spec: &crate::mutcoll::MutSpec, rep: &mut crate::mutcoll::MutReport);
 }
 
 macro_rules! typed_body {
@@ -448,22 +461,46 @@ fn prepared_slice_on<B: BumpAllocatorTyped + ?Sized>(
 
 /// Non-generic dispatch of a call through a handle kind. `Direct` uses the static entry points of the
 /// facade; all other kinds wrap the arena's trait object.
+pub enum ViaRef<'r> {
+    Shared(&'r dyn DynArena),
+    Excl(&'r mut dyn DynArena),
+}
+
 pub struct Via<'r> {
-    pub arena: &'r dyn DynArena,
+    pub arena: ViaRef<'r>,
     pub h: Handle,
 }
 
 macro_rules! via_dyn {
     ($self:expr, |$a:ident| $body:expr, $ret:ty) => {{
         let mut out: Option<$ret> = None;
-        let h = $self.h;
-        if h == Handle::DynCore {
-            $self.arena.d_with_core_dyn(&mut |d| {
+        let mut h = $self.h;
+        if matches!(h, Handle::RefMut | Handle::DynMut) {
+            if let ViaRef::Excl(arena) = &mut $self.arena {
+                arena.d_with_scope_dyn_mut(&mut |d| {
+                    out = Some(if h == Handle::DynMut {
+                        let $a = &*d;
+                        $body
+                    } else {
+                        // `&mut T` as the allocator: a reference to a `&mut dyn …`
+                        let m: &mut dyn MutBumpAllocatorCoreScope<'_> = d;
+                        let $a = &m;
+                        $body
+                    });
+                });
+            } else {
+                // only a shared handle is available (claimed original): fall back to the shared kinds
+                h = if h == Handle::RefMut { Handle::Ref } else { Handle::Dyn };
+            }
+        }
+        if out.is_some() {
+        } else if h == Handle::DynCore {
+            $self.sh().d_with_core_dyn(&mut |d| {
                 let $a = &d;
                 out = Some($body);
             });
         } else {
-            $self.arena.d_with_scope_dyn(&mut |d| {
+            $self.sh().d_with_scope_dyn(&mut |d| {
                 out = Some(match h {
                     Handle::Dyn => {
                         let $a = &d;
@@ -496,7 +533,7 @@ macro_rules! via_dyn {
                         let $a = &WithoutDealloc(WithoutShrink(d));
                         $body
                     }
-                    Handle::Direct | Handle::DynCore => unreachable!(),
+                    Handle::Direct | Handle::DynCore | Handle::RefMut | Handle::DynMut => unreachable!(),
                 });
             });
         }
@@ -508,8 +545,25 @@ macro_rules! via_dyn {
 macro_rules! via_dyn_scope {
     ($self:expr, |$a:ident| $body:expr, $ret:ty) => {{
         let mut out: Option<$ret> = None;
-        let h = $self.h;
-        $self.arena.d_with_scope_dyn(&mut |d| {
+        let mut h = $self.h;
+        if matches!(h, Handle::RefMut | Handle::DynMut) {
+            if let ViaRef::Excl(arena) = &mut $self.arena {
+                arena.d_with_scope_dyn_mut(&mut |d| {
+                    out = Some(if h == Handle::DynMut {
+                        let $a = &*d;
+                        $body
+                    } else {
+                        let m: &mut dyn MutBumpAllocatorCoreScope<'_> = d;
+                        let $a = &m;
+                        $body
+                    });
+                });
+            } else {
+                h = if h == Handle::RefMut { Handle::Ref } else { Handle::Dyn };
+            }
+        }
+        if out.is_none() {
+        $self.sh().d_with_scope_dyn(&mut |d| {
             out = Some(match h {
                 Handle::Dyn | Handle::DynCore => {
                     let $a = &d;
@@ -542,95 +596,106 @@ macro_rules! via_dyn_scope {
                     let $a = &WithoutDealloc(WithoutShrink(d));
                     $body
                 }
-                Handle::Direct => unreachable!(),
+                Handle::Direct | Handle::RefMut | Handle::DynMut => unreachable!(),
             });
         });
+        }
         out.expect("dyn callback was not invoked")
     }};
 }
 
 impl<'r> Via<'r> {
-    pub fn new(arena: &'r dyn DynArena, h: Handle) -> Self {
-        Via { arena, h }
+    pub fn new(arena: &'r mut dyn DynArena, h: Handle) -> Self {
+        Via { arena: ViaRef::Excl(arena), h }
     }
-    pub fn allocate(&self, layout: Layout, zeroed: bool) -> Result<NonNull<[u8]>, AllocError> {
+    /// only a shared borrow is available: `RefMut` / `DynMut` degrade to `Ref` / `Dyn`
+    pub fn shared(arena: &'r dyn DynArena, h: Handle) -> Self {
+        Via { arena: ViaRef::Shared(arena), h }
+    }
+    fn sh(&self) -> &dyn DynArena {
+        match &self.arena {
+            ViaRef::Shared(a) => *a,
+            ViaRef::Excl(a) => &**a,
+        }
+    }
+    pub fn allocate(&mut self, layout: Layout, zeroed: bool) -> Result<NonNull<[u8]>, AllocError> {
         if self.h == Handle::Direct {
-            return self.arena.s_allocate(layout, zeroed);
+            return self.sh().s_allocate(layout, zeroed);
         }
         via_dyn!(self, |a| if zeroed { a.allocate_zeroed(layout) } else { a.allocate(layout) }, Result<NonNull<[u8]>, AllocError>)
     }
     /// # Safety: allocator contract
-    pub unsafe fn grow(&self, ptr: NonNull<u8>, old: Layout, new: Layout, zeroed: bool) -> Result<NonNull<[u8]>, AllocError> {
+    pub unsafe fn grow(&mut self, ptr: NonNull<u8>, old: Layout, new: Layout, zeroed: bool) -> Result<NonNull<[u8]>, AllocError> {
         unsafe {
             if self.h == Handle::Direct {
-                return self.arena.s_grow(ptr, old, new, zeroed);
+                return self.sh().s_grow(ptr, old, new, zeroed);
             }
             via_dyn!(self, |a| if zeroed { a.grow_zeroed(ptr, old, new) } else { a.grow(ptr, old, new) }, Result<NonNull<[u8]>, AllocError>)
         }
     }
     /// # Safety: allocator contract
-    pub unsafe fn shrink(&self, ptr: NonNull<u8>, old: Layout, new: Layout) -> Result<NonNull<[u8]>, AllocError> {
+    pub unsafe fn shrink(&mut self, ptr: NonNull<u8>, old: Layout, new: Layout) -> Result<NonNull<[u8]>, AllocError> {
         unsafe {
             if self.h == Handle::Direct {
-                return self.arena.s_shrink(ptr, old, new);
+                return self.sh().s_shrink(ptr, old, new);
             }
             via_dyn!(self, |a| a.shrink(ptr, old, new), Result<NonNull<[u8]>, AllocError>)
         }
     }
     /// # Safety: allocator contract
-    pub unsafe fn deallocate(&self, ptr: NonNull<u8>, layout: Layout) {
+    pub unsafe fn deallocate(&mut self, ptr: NonNull<u8>, layout: Layout) {
         unsafe {
             if self.h == Handle::Direct {
-                return self.arena.s_deallocate(ptr, layout);
+                return self.sh().s_deallocate(ptr, layout);
             }
             via_dyn!(self, |a| a.deallocate(ptr, layout), ())
         }
     }
-    pub fn prepare(&self, layout: Layout, rev: bool) -> Result<Range<NonNull<u8>>, AllocError> {
+    pub fn prepare(&mut self, layout: Layout, rev: bool) -> Result<Range<NonNull<u8>>, AllocError> {
         if self.h == Handle::Direct {
-            return self.arena.s_prepare(layout, rev);
+            return self.sh().s_prepare(layout, rev);
         }
         via_dyn!(self, |a| if rev { a.prepare_allocation_rev(layout) } else { a.prepare_allocation(layout) }, Result<Range<NonNull<u8>>, AllocError>)
     }
     /// # Safety: contract of `allocate_prepared(_rev)`
-    pub unsafe fn commit(&self, layout: Layout, range: Range<NonNull<u8>>, rev: bool) -> NonNull<u8> {
+    pub unsafe fn commit(&mut self, layout: Layout, range: Range<NonNull<u8>>, rev: bool) -> NonNull<u8> {
         unsafe {
             if self.h == Handle::Direct {
-                return self.arena.s_commit(layout, range, rev);
+                return self.sh().s_commit(layout, range, rev);
             }
             via_dyn!(self, |a| if rev { a.allocate_prepared_rev(layout, range.clone()) } else { a.allocate_prepared(layout, range.clone()) }, NonNull<u8>)
         }
     }
-    pub fn checkpoint(&self) -> Checkpoint {
+    pub fn checkpoint(&mut self) -> Checkpoint {
         if self.h == Handle::Direct {
-            return self.arena.s_checkpoint();
+            return self.sh().s_checkpoint();
         }
         via_dyn!(self, |a| a.checkpoint(), Checkpoint)
     }
     /// # Safety: contract of `reset_to`
-    pub unsafe fn reset_to(&self, cp: Checkpoint) {
+    pub unsafe fn reset_to(&mut self, cp: Checkpoint) {
         unsafe {
             if self.h == Handle::Direct {
-                return self.arena.s_reset_to(cp);
+                return self.sh().s_reset_to(cp);
             }
             via_dyn!(self, |a| a.reset_to(cp), ())
         }
     }
-    pub fn is_claimed(&self) -> bool {
+    pub fn is_claimed(&mut self) -> bool {
         if self.h == Handle::Direct {
-            return self.arena.s_is_claimed();
+            return self.sh().s_is_claimed();
         }
         via_dyn!(self, |a| a.is_claimed(), bool)
     }
-    pub fn typed(&self, op: TypedOp, try_: bool) -> Result<Blk, ()> {
+    pub fn typed(&mut self, op: TypedOp, try_: bool) -> Result<Blk, ()> {
         if self.h == Handle::Direct {
-            return self.arena.s_typed(op, try_);
+            return self.sh().s_typed(op, try_);
         }
         if self.h == Handle::DynCore {
             // `dyn BumpAllocatorCore` carries the typed (non-scope) API; the value-level API needs the scope object
             let mut out = None;
-            self.arena.d_with_core_dyn(&mut |core| {
-                self.arena.d_with_scope_dyn(&mut |scope| {
+            self.sh().d_with_core_dyn(&mut |core| {
+                self.sh().d_with_scope_dyn(&mut |scope| {
                     out = Some(typed_on(core, scope, op, try_));
                 });
             });
@@ -638,17 +703,17 @@ impl<'r> Via<'r> {
         }
         via_dyn_scope!(self, |a| typed_on(a, a, op, try_), Result<Blk, ()>)
     }
-    pub fn reserve(&self, additional: usize, try_: bool) -> Result<(), ()> {
+    pub fn reserve(&mut self, additional: usize, try_: bool) -> Result<(), ()> {
         if self.h == Handle::Direct {
-            return self.arena.s_reserve(additional, try_);
+            return self.sh().s_reserve(additional, try_);
         }
         via_dyn!(self, |a| if try_ { a.try_reserve(additional).map_err(|_| ()) } else { Ok(a.reserve(additional)) }, Result<(), ()>)
     }
     /// # Safety: contract of shrink_slice
-    pub unsafe fn shrink_slice(&self, elem8: bool, ptr: NonNull<u8>, old_len: usize, new_len: usize) -> Option<NonNull<u8>> {
+    pub unsafe fn shrink_slice(&mut self, elem8: bool, ptr: NonNull<u8>, old_len: usize, new_len: usize) -> Option<NonNull<u8>> {
         unsafe {
             if self.h == Handle::Direct {
-                return self.arena.s_shrink_slice(elem8, ptr, old_len, new_len);
+                return self.sh().s_shrink_slice(elem8, ptr, old_len, new_len);
             }
             via_dyn!(
                 self,
@@ -657,15 +722,15 @@ impl<'r> Via<'r> {
             )
         }
     }
-    pub fn prepared_slice(&self, elem: usize, min_cap: usize, len_of: &mut dyn FnMut(usize) -> usize, rev: bool, try_: bool, fill: &mut dyn FnMut(NonNull<u8>, usize)) -> Result<(NonNull<u8>, usize, NonNull<u8>, usize), ()> {
+    pub fn prepared_slice(&mut self, elem: usize, min_cap: usize, len_of: &mut dyn FnMut(usize) -> usize, rev: bool, try_: bool, fill: &mut dyn FnMut(NonNull<u8>, usize)) -> Result<(NonNull<u8>, usize, NonNull<u8>, usize), ()> {
         if self.h == Handle::Direct {
-            return self.arena.s_prepared_slice(elem, min_cap, len_of, rev, try_, fill);
+            return self.sh().s_prepared_slice(elem, min_cap, len_of, rev, try_, fill);
         }
         via_dyn!(self, |a| prepared_slice_on(a, elem, min_cap, len_of, rev, try_, fill), Result<(NonNull<u8>, usize, NonNull<u8>, usize), ()>)
     }
-    pub fn any_stats(&self, out: &mut StatsSnap) {
+    pub fn any_stats(&mut self, out: &mut StatsSnap) {
         if self.h == Handle::Direct {
-            return self.arena.s_any_stats(out);
+            return self.sh().s_any_stats(out);
         }
         via_dyn!(self, |a| snap_any(a.any_stats(), out), ())
     }
@@ -832,6 +897,9 @@ where
     fn d_with_scope_dyn(&self, f: ScopeDynFn<'_>) {
         f(self)
     }
+    fn d_with_scope_dyn_mut(&mut self, f: ScopeDynMutFn<'_>) {
+        f(self)
+    }
     fn s_typed(&self, op: TypedOp, try_: bool) -> Result<Blk, ()> {
         typed_on(self, self, op, try_)
     }
@@ -859,6 +927,9 @@ where
     }
     fn d_alloc_try_with(&mut self, mutable: bool, ok: bool, inner_alloc: Option<Layout>, try_: bool) -> Result<Blk, ()> {
         alloc_try_with_on(self, mutable, ok, inner_alloc, try_)
+    }
+    fn d_mut_coll(&mut self, spec: &crate::mutcoll::MutSpec, rep: &mut crate::mutcoll::MutReport) {
+        <A::MutColl as crate::mutcoll::MutCollSwitch>::run(self, spec, rep)
     }
 }
 
@@ -919,6 +990,11 @@ where
         let r: &Bump<A, S> = self;
         f(&r)
     }
+    fn d_with_scope_dyn_mut(&mut self, f: ScopeDynMutFn<'_>) {
+        // `&mut Bump` is the exclusive scope-like handle of a `Bump`
+        let mut r: &mut Bump<A, S> = self;
+        f(&mut r)
+    }
     fn s_typed(&self, op: TypedOp, try_: bool) -> Result<Blk, ()> {
         typed_bump_inherent(self, op, try_)
     }
@@ -959,6 +1035,9 @@ where
             }
             _ => region_on_scope(self.as_mut_scope(), r, body),
         }
+    }
+    fn d_mut_coll(&mut self, spec: &crate::mutcoll::MutSpec, rep: &mut crate::mutcoll::MutReport) {
+        <A::MutColl as crate::mutcoll::MutCollSwitch>::run(self.as_mut_scope(), spec, rep)
     }
     fn d_alloc_try_with(&mut self, mutable: bool, ok: bool, inner_alloc: Option<Layout>, try_: bool) -> Result<Blk, ()> {
         // `Bump`'s own forwarding methods
